@@ -239,6 +239,9 @@ class Interp:
             return vunk("depth")
         if isinstance(fi.node, ast.FunctionDef) and fi.is_abstract():
             return vunk("abstract")
+        stubs = self.config.get("stubs")
+        if stubs and fi.short in stubs:
+            return stubs[fi.short](self, clo, args, kwargs, st, node)
         self.inlined.add(fi.qualname)
         env = self.bind_args(fi, args, kwargs, st, clo.self_v)
         fr = Frame(fi, clo.self_v, clo.env_chain, len(st.pc), len(self.framestack))
@@ -642,8 +645,9 @@ class Interp:
         if self._consume_dead():
             return False
         fr = self.cur()
-        self.event("return", s, st, value=v)
-        fr.returns.append((st.pc[fr.pc_base:], v, st.copy()))
+        snap = st.copy()
+        self.event("return", s, st, value=v, state=snap, probing=getattr(self, "_probing", 0))
+        fr.returns.append((st.pc[fr.pc_base:], v, snap))
         return False
 
     def x_Raise(self, s, st):
